@@ -48,6 +48,14 @@ CHECKS = {
     "C11": dict(level="proof", campaigns=[CFG_CAMP], trusted_base=CFG_TB, assumptions=CFG_AS + [
         "the kernel's listen queue between the accept loops of two generations is observed, not modelled",
         "a connection still dialling its target when the old generation stops is aborted by design (context cancellation); C11 does not cover it and the campaign counts it apart"]),
+    "C12": dict(
+        level="proof",
+        campaigns=[dict(engine="shared", n=n(150, 4000), netns=True), dict(engine="lockstress", n=n(30, 600), netns=True)],
+        trusted_base=["model Model/Shared.lean (labelled transition system of one shared listener) of service/listeners.go, hand-written; tied by the `shared` campaign: the real ListenerManager on real TCP/UDP sockets in a private network namespace, random interleavings with operations issued concurrently, observations linearised into model events which the model must accept (refinement check), plus model-independent oracles (undelivered item with a blocked handle, hanging connection, call that never returns, goroutines/fds left)",
+                      "atomicity of each event on the real code: lock facts of C19/C13 (Gen/LockFacts.lean)"],
+        assumptions=["the kernel's accept queue and socket buffer are part of `queue`; a datagram sent to a bound UDP socket on loopback is in its buffer when sendto returns",
+                     "linearisation of concurrent operations is chosen by the harness from the observed outcomes (an item returned by a call precedes the close of its handle; a successful connect precedes the close of the last handle)"],
+    ),
     "C17": dict(
         level="proof",
         campaigns=[dict(engine="metrics", n=n(250, 5000))],
